@@ -238,6 +238,22 @@ def run(ctx):
         ctx.count(f'exhaustive:{kind}:{nj}x{ni}', hi - lo)
     ctx.exhaustive = True
     ctx.samples.append({'op': 'blur_mask', 'array': arr_of_bits(2, 3, 0b100001).astype(int).tolist(), 'size': 1})
+    # the caller's mask is left as it was, and what comes back is a new array (blurring it again, or with another size, starts
+    # from the mask, not from the last answer)
+    for nj_, ni_, bits_ in [(3, 4, 0b000001000000), (4, 4, 0b1000000000000001), (1, 5, 0b00100)]:
+        a0 = arr_of_bits(nj_, ni_, bits_)
+        keep = a0.copy()
+        r1 = masking.blur_mask(a0, size=1)
+        r1_copy = r1.copy()
+        r2 = masking.blur_mask(a0, size=1)
+        ctx.case(('blur_mask input', nj_, ni_, bits_), True)
+        ctx.count('blur_mask:argument unchanged / result independent')
+        if not numpy.array_equal(a0, keep):
+            ctx.report('property', f'blur_mask changed the mask it was given: {keep.astype(int).tolist()} became {a0.astype(int).tolist()}',
+                       {'op': 'blur_mask', 'array': keep.astype(int).tolist(), 'size': 1})
+        elif numpy.shares_memory(r1, a0) or not numpy.array_equal(r2, r1_copy):
+            ctx.report('property', 'blur_mask returns its own argument / answers differently the second time',
+                       {'op': 'blur_mask', 'array': keep.astype(int).tolist(), 'size': 1})
 
     # ---------------- (B) make_clip_mask on grids, (C) meshes
     n_ds = 20 if quick else 160
